@@ -43,6 +43,10 @@ def fingerprint(f):
     return sorted(names)
 
 
+from nc_static.source import _fingerprint as fingerprint  # the engine's own feature extraction (one definition)
+_prev = json.load(open(os.path.join(HERE, "reference", "anchors.json")))
+ANCHORS = set(ANCHORS) | {a["name"] for a in _prev["anchors"]}  # never shrink the anchor set
+
 tmp2 = tempfile.mkdtemp()
 try:
     subprocess.check_call("git -C /repo archive %s netconan | tar -x -C %s" % (rev, tmp2), shell=True)
